@@ -25,6 +25,8 @@ pub fn get_type_size(expression: pt::Expression) -> u16 {
 
 //get line number of start of character range
 pub fn get_line_number(char_number: usize, file_contents: &str) -> i32 {
+    #[cfg(solstat_verif)]
+    crate::verif_shim::yield_point("get_line_number");
     let re = Regex::new(r"\n").unwrap();
     let mut i = 1;
     for capture in re.captures_iter(file_contents).into_iter() {
